@@ -39,7 +39,17 @@ def setups(thorough):
 
 def callback_sets():
     log = lambda: LoggingCallback(Rec(), name="verif")
-    bar = lambda: ProgressBarCallback(None, name="verif")
+    def bar():
+        import os
+        b = ProgressBarCallback(None, name="verif")
+        try:
+            pb = b.progress_bar.progress_bar
+            pb.console.file = open(os.devnull, "w")   # display only; not part of any checked behaviour
+            pb.live._redirect_stdout = False            # rich would otherwise swallow the check's own output once the bar starts (replays)
+            pb.live._redirect_stderr = False
+        except Exception:  # noqa: BLE001
+            pass
+        return b
     return {
         "none": CallbackList(callbacks=[]),
         "logging": log(),
@@ -221,8 +231,24 @@ def check_learn_observer(ck, aname, algo, env, mkpol):
         outs[cname] = (tr, it, S, tr.run(it, S))
     (tr0, it0, S0, o0), (tr1, it1, S1, o1) = outs["none"], outs["list(logging,progress_bar)"]
     goal = conj([eq_arr(o0[n], o1[n]) for n in o0])
-    ck.prove(f"observer.{aname}.learn_one_iteration", stubs.contracts(it0) + stubs.contracts(it1), goal, timeout=120,
-             replay=lambda res: (True, {"note": "learn() returns a different policy when observers are attached"}))
+    def rp_learn(res):
+        """the real learn() with and without observers, same inputs, generic concrete environment, real PRNG"""
+        from jaxsmt.uf import GenericWorld, world
+        pols = []
+        for cname in ("none", "list(logging,progress_bar)"):
+            cb = callback_sets()[cname]
+            jax.clear_caches()
+            try:
+                with world(GenericWorld(seed=5)):
+                    pols.append(jax.block_until_ready(algo.learn(env, pol, T, key=jr.key(3), callback=cb)))
+            finally:
+                jax.clear_caches()
+        la = [np.asarray(x, np.float64) for x in jax.tree_util.tree_leaves(pols[0]) if eqx.is_inexact_array(x)]
+        lb = [np.asarray(x, np.float64) for x in jax.tree_util.tree_leaves(pols[1]) if eqx.is_inexact_array(x)]
+        differ = [i for i, (a, b) in enumerate(zip(la, lb)) if not np.array_equal(a, b, equal_nan=True)]
+        fin = [float(np.nanmax(np.abs(np.where(np.isfinite(a) & np.isfinite(b), a - b, 0.0)))) for a, b in zip(la, lb) if a.size]
+        return bool(differ), {"parameter_leaves_that_differ_with_observers_attached": len(differ), "max_finite_difference": max(fin, default=0.0), "total_timesteps": T}
+    ck.prove(f"observer.{aname}.learn_one_iteration", stubs.contracts(it0) + stubs.contracts(it1), goal, timeout=120, replay=rp_learn)
 
 
 def main():
